@@ -4,14 +4,15 @@ Sessions of SurveySession.tla on noisy networks: each edit re-expresses the surv
 axes / angle sense); its law is checked on results projected back to the physical frame."""
 import sessions
 LEVEL = "exploration"
+NOISE = "{0, 1, 2, 3}"
 KINDS = '{"Translate", "RotateCircle", "Permute", "Rename", "SwitchUnits", "SwapEnds", "MirrorAxes"}'
 
 
 def run(ctx):
     q = ctx.quick
-    r1, one = sessions.generate(ctx, "c07a", {"Templates": sessions.ALL_TEMPLATES, "MaxEdits": 1, "EditKinds": KINDS,
-                                              "KeepNet": 211 if q else 41, "KeepEdit": 3 if q else 1, "Seed": ctx.seed})
-    r2, multi = sessions.generate(ctx, "c07b", {"Templates": sessions.ALL_TEMPLATES, "MaxEdits": 4, "EditKinds": KINDS,
+    r1, one = sessions.generate(ctx, "c07a", {"Templates": sessions.ALL_TEMPLATES, "NoiseSet": NOISE, "MaxEdits": 1, "EditKinds": KINDS,
+                                              "KeepNet": 211 if q else 47, "KeepEdit": 3 if q else 1, "Seed": ctx.seed})
+    r2, multi = sessions.generate(ctx, "c07b", {"Templates": sessions.ALL_TEMPLATES, "NoiseSet": NOISE, "MaxEdits": 4, "EditKinds": KINDS,
                                                 "KeepNet": 1, "KeepEdit": 1, "Seed": ctx.seed}, simulate=150 if q else 2500)
     multi = multi[:120 if q else 3000]
     ctx.note("SurveySession: %d one-edit sessions, %d random 4-edit sessions" % (len(one), len(multi)))
